@@ -5,6 +5,7 @@ import Genq.Model.HttpResp
 import Genq.Model.Names
 import Genq.Model.Main
 import Genq.Model.Ws
+import Genq.Model.Doc
 open Lean
 namespace Genq.Driver
 
@@ -212,6 +213,41 @@ def opWs (op : String) (j : Json) : Except String Json := do
     return Json.mkObj [("world", worldJson w), ("disabledAt", match bad with | some k => (k : Json) | none => Json.null)]
   | _ => throw s!"unknown op {op}"
 
+partial def parseSel (j : Json) : Except String Doc.Sel := do
+  match (← getStr j "k") with
+  | "f" =>
+    let sub ← (← getArr j "sub").toList.mapM parseSel
+    return .field (← getStr j "a").toList (← getStr j "n").toList (← getStr j "args") (← getStr j "dirs") (← getBool j "ab") sub
+  | "i" =>
+    let sub ← (← getArr j "sub").toList.mapM parseSel
+    return .inline (← getStr j "tc").toList (← getStr j "dirs") sub
+  | "s" => return .spread (← getStr j "n").toList (← getStr j "dirs")
+  | k => throw s!"sel kind {k}"
+
+partial def selJson : Doc.Sel → Json
+  | .field a n args dirs ab sub => Json.mkObj [("k", "f"), ("a", str a), ("n", str n), ("args", args), ("dirs", dirs), ("ab", ab),
+      ("sub", Json.arr (sub.map selJson).toArray)]
+  | .inline tc dirs sub => Json.mkObj [("k", "i"), ("tc", str tc), ("dirs", dirs), ("sub", Json.arr (sub.map selJson).toArray)]
+  | .spread n dirs => Json.mkObj [("k", "s"), ("n", str n), ("dirs", dirs)]
+
+def parseSelList (j : Json) (k : String) : Except String (List Doc.Sel) := do
+  (← getArr j k).toList.mapM parseSel
+
+def opDoc (op : String) (j : Json) : Except String Json := do
+  match op with
+  | "doc.assemble" =>
+    let frags ← (← getArr j "frags").toList.mapM fun f => do
+      pure ({ name := (← getStr f "name").toList, on := (← getStr f "on").toList, header := (← getStr f "header"), sel := (← parseSelList f "sel") } : Doc.Frag)
+    let oj ← j.getObjVal? "operation"
+    let o : Doc.Op := { kind := (← getStr oj "kind"), name := (← getStr oj "name").toList, header := (← getStr oj "header"), sel := (← parseSelList oj "sel") }
+    let out := Doc.assemble frags o
+    return Json.mkObj [("op", Json.arr (out.op.sel.map selJson).toArray),
+      ("frags", Json.arr (out.frags.map fun f => Json.mkObj [("name", str f.name), ("on", str f.on), ("header", f.header),
+        ("sel", Json.arr (f.sel.map selJson).toArray)]).toArray)]
+  | "doc.onlyTypenameAdded" =>
+    return Json.mkObj [("out", Doc.onlyTypenameAddedList (← parseSelList j "src") (← parseSelList j "emitted"))]
+  | _ => throw s!"unknown op {op}"
+
 def dispatch (j : Json) : Json :=
   let r : Except String Json := do
     let op ← getStr j "op"
@@ -220,6 +256,7 @@ def dispatch (j : Json) : Json :=
     else if op.startsWith "names." then opNames op j
     else if op.startsWith "main." then opMain op j
     else if op.startsWith "ws." then opWs op j
+    else if op.startsWith "doc." then opDoc op j
     else throw s!"unknown op {op}"
   let idf := match j.getObjVal? "id" with | .ok v => [("id", v)] | .error _ => []
   match r with
